@@ -153,4 +153,107 @@ theorem C20_effective_is_getD (own dflt : Option Nat) (lib : Nat) :
       = some (.int (own.getD (dflt.getD lib) : Nat)) := by
   cases own <;> cases dflt <;> simp [effective, PV.toInt]
 
+/-! ### the other loaders: keyword arguments read from a mapping of the file (`Router` / `Firewall` / `WirelessRouter.from_config`,
+the calls inside `PrimaiteGame.from_config`) -/
+
+/-- what a keyword argument must be, by what it configures: the keys it may read and the value it hands on -/
+structure KwSpec where
+  ownKey : String
+  altKey : String
+  val : Option PV → Option PV → (String → PV → R) → R
+
+/-- an address of an ACL rule has TWO spellings (`src_ip` in the shipped scenarios, `src_ip_address` in the documentation):
+the first declared spelling - whatever its value - else the second, else `None` (= any address). -/
+def aclAddress (own alt : Option PV) : R := effective some some own alt (some .none)
+
+/-- **the specification of every keyword argument the loaders read from the file** (by loader, callee and keyword) -/
+def kwSpec (function callee keyword : String) : Option KwSpec :=
+  match callee, keyword with
+  | "add_rule", "src_ip_address" => some ⟨"src_ip", "src_ip_address", fun own alt _ => aclAddress own alt⟩
+  | "add_rule", "dst_ip_address" => some ⟨"dst_ip", "dst_ip_address", fun own alt _ => aclAddress own alt⟩
+  | "add_rule", "src_wildcard_mask" => some ⟨"src_wildcard_mask", "", fun own _ _ => optionalKey some .none own⟩
+  | "add_rule", "dst_wildcard_mask" => some ⟨"dst_wildcard_mask", "", fun own _ _ => optionalKey some .none own⟩
+  | "add_rule", "src_port" => some ⟨"src_port", "", fun own _ fn => truthyLookup (fn "PORT_LOOKUP[]") own⟩
+  | "add_rule", "dst_port" => some ⟨"dst_port", "", fun own _ fn => truthyLookup (fn "PORT_LOOKUP[]") own⟩
+  | "add_rule", "protocol" => some ⟨"protocol", "", fun own _ fn => truthyLookup (fn "PROTOCOL_LOOKUP[]") own⟩
+  | "add_rule", "action" => some ⟨"action", "", fun own _ fn => requiredKey (fn "ACLAction[]") own⟩
+  | "add_route", "address" => some ⟨"address", "", fun own _ fn => optionalKey (fn "IPv4Address") .none own⟩
+  | "add_route", "next_hop_ip_address" => some ⟨"next_hop_ip_address", "", fun own _ fn => optionalKey (fn "IPv4Address") .none own⟩
+  | "add_route", "subnet_mask" => some ⟨"subnet_mask", "", fun own _ fn => optionalKey (fn "IPv4Address") (.str "255.255.255.0" none) own⟩
+  | "add_route", "metric" => some ⟨"metric", "", fun own _ fn => optionalKey (fn "float") (.int 0) own⟩
+  | "configure_port", "ip_address" => some ⟨"ip_address", "", fun own _ _ => requiredKey some own⟩
+  | "configure_port", "subnet_mask" => some ⟨"subnet_mask", "", fun own _ fn => optionalKey (fn "IPv4Address") (.str "255.255.255.0" none) own⟩
+  | "NIC", "ip_address" => some ⟨"ip_address", "", fun own _ _ => requiredKey some own⟩
+  | "NIC", "subnet_mask" => some ⟨"subnet_mask", "", fun own _ _ => requiredKey some own⟩
+  | _, "ip_address" =>
+      if function = "Firewall.from_config" ∧ callee ∈ ["configure_internal_port", "configure_external_port", "configure_dmz_port"]
+      then some ⟨"ip_address", "", fun own _ fn => optionalKey (fn "IPV4Address") .none own⟩ else none
+  | _, "subnet_mask" =>
+      if function = "Firewall.from_config" ∧ callee ∈ ["configure_internal_port", "configure_external_port", "configure_dmz_port"]
+      then some ⟨"subnet_mask", "", fun own _ fn => optionalKey (fn "IPV4Address") (.str "255.255.255.0" none) own⟩ else none
+  | _, _ => none
+
+/-- a translated row meets its specification: it reads exactly the specified keys and gives the specified value for EVERY value of
+both keys (absent included) and every lookup table / constructor -/
+def RowOk (r : KwRow) : Prop :=
+  match kwSpec r.function r.callee r.keyword with
+  | none => False
+  | some s => r.ownKey = s.ownKey ∧ r.altKey = s.altKey ∧ ∀ own alt fn, r.f own alt fn = s.val own alt fn
+
+theorem truthy_bool (b : Bool) : (PV.bool b).truthy = b := rfl
+theorem truthy_none : PV.none.truthy = false := rfl
+
+theorem truthyLookup_eq (c : PV → R) (own : Option PV) :
+    Py.cond (Py.not (Py.get own)) (Py.lit .none) (Py.app c (Py.get own)) = truthyLookup c own := by
+  cases own with
+  | none => simp [Py.cond, Py.not, Py.get, Py.lit, truthyLookup, truthy_bool, truthy_none]
+  | some v => cases h : v.truthy <;> simp [Py.cond, Py.not, Py.get, Py.lit, Py.app, truthyLookup, truthy_bool, h]
+
+/-- **every keyword argument that `Router` / `Firewall` / `WirelessRouter.from_config` (and the `NIC(..)` call of
+`PrimaiteGame.from_config`) read from the file is what `kwSpec` says** - in particular, in ALL the ACLs of all three loaders
+(a row per distinct translated expression: a change to one of the six firewall ACLs adds a row), an address is
+`the first declared spelling, else the second, else None`, for every value. Replaces the text pin `aclAddressKeys`. -/
+theorem C20_gen_kwargs_resolve : AllRows RowOk kwargTable := by
+  unfold kwargTable
+  simp only [AllRows, and_true, true_and, RowOk, kwSpec]
+  repeat' apply And.intro
+  all_goals first
+    | trivial
+    | (intro own _ fn; exact truthyLookup_eq _ own)
+    | (intro own alt fn
+       cases own <;> cases alt <;>
+         simp [aclAddress, effective, optionalKey, requiredKey, truthyLookup, Py.cond, Py.not, Py.sub, Py.has, Py.hasNot, Py.and, Py.or,
+               Py.isNone, Py.isNotNone, Py.get, Py.getD, Py.lit, Py.app, Option.bind, truthy_bool, truthy_none] <;>
+         (try split) <;> (try simp_all))
+
+/-- the three router-like loaders each have their ACL address rows (non-vacuity of the theorem above on the rows that matter) -/
+theorem C20_gen_kwargs_acl_rows_present :
+    ["Router.from_config", "Firewall.from_config", "WirelessRouter.from_config"].all (fun f =>
+      ["src_ip_address", "dst_ip_address", "src_port", "dst_port", "protocol", "action"].all (fun k =>
+        kwargTable.any (fun r => r.function == f && r.callee == "add_rule" && r.keyword == k))) = true := by
+  decide
+
+/-- the semantic tie, spelled out: in every row of every loader that hands an ACL address to `add_rule`, the value is the first
+declared spelling (for EVERY value, `None` and '' included), else the second, else `None` -/
+theorem C20_acl_address_first_declared_spelling (r : KwRow) (h : r ∈ kwargTable) (hc : r.callee = "add_rule")
+    (hk : r.keyword = "src_ip_address" ∨ r.keyword = "dst_ip_address") (own alt : Option PV) (fn : String → PV → R) :
+    r.f own alt fn = (match own with | some v => some v | none => match alt with | some a => some a | none => some .none) ∧
+    r.altKey = r.keyword ∧ (r.ownKey = "src_ip" ∨ r.ownKey = "dst_ip") := by
+  have ok := AllRows.mem C20_gen_kwargs_resolve r h
+  unfold RowOk at ok
+  rcases hk with hk | hk <;> simp only [kwSpec, hc, hk] at ok <;> obtain ⟨h1, h2, h3⟩ := ok <;>
+    refine ⟨?_, h2.trans hk.symm, ?_⟩ <;> simp_all [aclAddress, effective] <;> (cases own <;> cases alt <;> rfl)
+
+/-- a loader that preferred the DOCUMENTED spelling, or fell through a falsy first spelling (`r.get('src_ip') or r.get('src_ip_address')`),
+does not meet the specification -/
+theorem C20_acl_address_or_rewrite_differs :
+    ¬ ∀ own alt, Py.or (Py.get own) (Py.get alt) = aclAddress own alt := by
+  intro h
+  have := h (some (.str "" none)) (some (.str "10.0.0.2" none))
+  revert this
+  decide
+
+example : aclAddress (some .none) (some (.str "10.0.0.2" none)) = some .none := by decide
+example : aclAddress none (some (.str "10.0.0.2" none)) = some (.str "10.0.0.2" none) := by decide
+
 end Primaite.ConfigResolve
